@@ -33,6 +33,24 @@ KF_NOFIELDNORM = ("TopDocs by score on a field indexed WithFreqs without fieldno
                   "blocks that hold better documents")
 
 
+KF_MERGETIES = ("TopDocs over several segments breaks a tie on the sort key by the larger DocAddress: merge_top_k pushes the segment hits "
+                "(TopNComputer::into_vec, arbitrary order after a truncation) into a TopNComputer whose threshold drops every later hit that "
+                "ties with it, so when rank K falls inside a group of equal keys of one segment an equal-key hit with a smaller address is "
+                "lost (and never returned by paging)")
+
+
+def only_tie_order_differs(diag):
+    """the returned page has exactly the keys of the expected page, only other documents of the boundary key"""
+    top, exp = diag.get("top"), diag.get("expected")
+    if not diag.get("exact") or not isinstance(top, list) or not isinstance(exp, list) or len(top) != len(exp) or top == exp:
+        return False
+    keys = lambda xs: sorted(json.dumps(x[2]) for x in xs)
+    if keys(top) != keys(exp):
+        return False
+    diff = [json.dumps(t[2]) for t, e in zip(top, exp) if t != e]
+    return len(set(diff)) == 1 and len({t[0] for t in top}) >= 1
+
+
 def uses_field(q, f):
     if isinstance(q, dict):
         return q.get("f") == f or any(uses_field(v, f) for v in q.values())
@@ -62,6 +80,8 @@ def classify(diag, ev):
         return "C06: " + why
     q = diag.get("q", {})
     key = diag.get("key", {})
+    if only_tie_order_differs(diag):
+        return "C06 top-K: " + KF_MERGETIES
     if uses_field(q, "nf") and key.get("kind") in ("score", "tweak_mul", "pair"):
         return "C06 top-K: " + KF_NOFIELDNORM
     if is_toplevel_term_dismax(q) and key.get("kind") in ("score", "tweak_mul", "pair"):
@@ -252,6 +272,20 @@ def known_finding_runs(ctx):
     validate(ctx, vlib.read_ndjson(tp), "kf_nf", expect=seen2)
     ctx.cov["traces_validated_against_impl"] = before
     ctx.cov["recorded_findings_reproduced"] = {"no_fieldnorms_block_max_zero": any(KF_NOFIELDNORM in s for s in seen2)}
+    # recorded finding: tie order lost in the merge of segment hits (800 documents in 5 segments, 195 matches of which most have no
+    # `dt` value, ascending order with missing values first: rank 56 falls inside the group of equal keys of segment 2)
+    tq = lambda x: {"o": "must", "q": {"k": "term", "f": "title", "t": x, "opt": "freq"}}
+    case = {"q": {"k": "bool", "cl": [tq("all"), tq("t2"), tq("t0"), tq("t0")], "msm": 0, "explicit": False},
+            "key": {"kind": "fast", "f": "dt", "ty": "date", "cmp": ["reverse"], "via_order": False}, "plan": [[7, 49], [56, 0], [7, 42], [7, 56]]}
+    cp = ctx.path("kf_ties_cases.ndjson")
+    vlib.write_ndjson(cp, [case])
+    tp = ctx.path("kf_ties_trace.ndjson")
+    vlib.run_bin("topk_driver", ["search", "--seed", 10, "--docs", 800, "--segments", 5, "--fixed", cp, "--out", tp], timeout=300)
+    seen3 = []
+    before = ctx.cov["traces_validated_against_impl"]
+    validate(ctx, vlib.read_ndjson(tp), "kf_ties", expect=seen3)
+    ctx.cov["traces_validated_against_impl"] = before
+    ctx.cov["recorded_findings_reproduced"]["merge_tie_order"] = any(KF_MERGETIES in s for s in seen3)
 
 
 def binding_selftest(ctx, topn_events, search_events):
